@@ -158,6 +158,13 @@ class IntegerPoint(PointBase):
         # Provide a nice way to use the string self.value in calculations.
         return int(self.value)
 
+    def __hash__(self) -> int:
+        # Equal points must hash equal whatever their spelling ('07' == '7').
+        try:
+            return hash(int(self))
+        except ValueError:
+            return hash(self.value)
+
 
 class IntegerInterval(IntervalBase):
 
